@@ -141,27 +141,141 @@ func (b *Builder) literals(st *ssa.Store, s state) ([]*Literal, bool) {
 	return out, true
 }
 
-// jumpRecord: the labels of the JumpIf record appended by a store to the jump list.
-func (b *Builder) jumpRecord(st *ssa.Store, s state) (lt, lf *LabelVal, ok bool) {
+// positionLag: v is "the current end of the instruction list" (Index(len(p.instructions)), directly or through a
+// method of the builder that returns just that), evaluated in the block of `at`; the result is the number of
+// instructions appended to the list between that evaluation and `at` (0: v names the next instruction to be emitted).
+func (b *Builder) positionLag(v ssa.Value, at ssa.Instruction) (int, bool) {
+	for {
+		switch x := v.(type) {
+		case *ssa.Convert:
+			v = x.X
+			continue
+		case *ssa.ChangeType:
+			v = x.X
+			continue
+		}
+		break
+	}
+	c, ok := v.(*ssa.Call)
+	if !ok || c.Block() != at.Block() {
+		return 0, false
+	}
+	var evalAt ssa.Instruction = c
+	if isBuiltin(c, "len") {
+		ld, ok := c.Call.Args[0].(*ssa.UnOp)
+		if !ok || ld.Block() != at.Block() {
+			return 0, false
+		}
+		if _, path, ok := recvPath(ld.X, b.progType); !ok || path != ".instructions" {
+			return 0, false
+		}
+		evalAt = ld
+	} else if cal := c.Call.StaticCallee(); cal == nil || !b.isCurIndexFn(cal) {
+		return 0, false
+	}
+	lag, seen := 0, false
+	for _, in := range at.Block().Instrs {
+		if in == evalAt {
+			seen = true
+			continue
+		}
+		if in == at {
+			if !seen {
+				return 0, false
+			}
+			return lag, true
+		}
+		if !seen {
+			continue
+		}
+		switch y := in.(type) {
+		case *ssa.Store:
+			if _, path, ok := recvPath(y.Addr, b.progType); ok && path == ".instructions" {
+				lag++
+			}
+		case *ssa.Call:
+			if cal := y.Call.StaticCallee(); cal != nil && (b.emitters[cal] || b.patcher[cal]) {
+				return 0, false // an emitter call in between: position unknown
+			}
+		}
+	}
+	return 0, false
+}
+
+// isCurIndexFn: a method of the builder whose only effect is to return Index(len(p.instructions)).
+func (b *Builder) isCurIndexFn(f *ssa.Function) bool {
+	if !b.isBuilderMethod(f) || len(f.Blocks) != 1 || len(f.Params) != 1 {
+		return false
+	}
+	for _, in := range f.Blocks[0].Instrs {
+		switch x := in.(type) {
+		case *ssa.Return:
+			if len(x.Results) != 1 {
+				return false
+			}
+			v := x.Results[0]
+			if cv, ok := v.(*ssa.Convert); ok {
+				v = cv.X
+			} else if ct, ok := v.(*ssa.ChangeType); ok {
+				v = ct.X
+			}
+			c, ok := v.(*ssa.Call)
+			if !ok || !isBuiltin(c, "len") {
+				return false
+			}
+			ld, ok := c.Call.Args[0].(*ssa.UnOp)
+			if !ok {
+				return false
+			}
+			base, path, ok := recvPath(ld.X, b.progType)
+			return ok && path == ".instructions" && base == ssa.Value(f.Params[0])
+		case *ssa.Store, *ssa.MapUpdate, *ssa.Go, *ssa.Defer:
+			return false
+		case *ssa.Call:
+			if !isBuiltin(x, "len") {
+				return false
+			}
+		}
+	}
+	return false
+}
+
+// jumpRecord: the labels of the JumpIf record appended by a store to the jump list, and how many instructions were
+// appended between the evaluation of the record's index and the store (0: the record names the next emission, 1: the
+// one just made).
+func (b *Builder) jumpRecord(st *ssa.Store, s state) (lt, lf *LabelVal, lag int, ok bool) {
+	lt, lf, idx, ok := b.jumpRecord0(st, s)
+	if !ok {
+		return nil, nil, 0, false
+	}
+	lag, okl := b.positionLag(idx, st)
+	if !okl || lag > 1 {
+		b.problem("%s: the index of a jump record is not the end of the instruction list evaluated directly before (or one emission before) the record is stored", s.fr.fn.Name())
+		lag = 0
+	}
+	return lt, lf, lag, true
+}
+
+func (b *Builder) jumpRecord0(st *ssa.Store, s state) (lt, lf *LabelVal, idx ssa.Value, ok bool) {
 	x, okx := appendOperands(st)
 	if !okx {
-		return nil, nil, false
+		return nil, nil, nil, false
 	}
 	vals, okv := elementsOf(x)
 	if !okv || len(vals) != 1 {
-		return nil, nil, false
+		return nil, nil, nil, false
 	}
 	ld, okl := vals[0].(*ssa.UnOp)
 	if !okl {
-		return nil, nil, false
+		return nil, nil, nil, false
 	}
 	al, oka := ld.X.(*ssa.Alloc)
 	if !oka {
-		return nil, nil, false
+		return nil, nil, nil, false
 	}
 	stt, oks := al.Type().Underlying().(*types.Pointer).Elem().Underlying().(*types.Struct)
 	if !oks {
-		return nil, nil, false
+		return nil, nil, nil, false
 	}
 	found := 0
 	for _, ref := range *al.Referrers() {
@@ -182,14 +296,16 @@ func (b *Builder) jumpRecord(st *ssa.Store, s state) (lt, lf *LabelVal, ok bool)
 			case "falseLabel":
 				lf = b.labelOf(s2.Val, s.fr, s.env, 0)
 				found++
+			case "index":
+				idx = s2.Val
 			}
 		}
 	}
-	if found != 2 {
-		return nil, nil, false
+	if found != 2 || idx == nil {
+		return nil, nil, nil, false
 	}
 	if lt == nil || lf == nil {
 		b.problem("%s: a jump refers to a label that cannot be resolved to a NewLabel call", s.fr.fn.Name())
 	}
-	return lt, lf, true
+	return lt, lf, idx, true
 }
